@@ -22,7 +22,7 @@ LEVEL_TEXT = ("All sequences up to length 4 (quick) / 6 (thorough) over a 12-ope
 LEVEL_NOTE = "Trusts numpy and icontract; the record-level clause (pid strictly increasing, pid[k] >= k in every output record) is asserted by the shared output checker in the end-to-end checks (C06, C09, C14 ...)."
 RULE = ("case = all operation sequences of the given length with a fixed two-operation prefix (exhaustive family) or a batch of random sequences; "
         "non-trivial sequence: contains an append, a kill and a compactify followed by another append (the pid-reuse / misalignment pattern); distinct by sequence.")
-MANDATORY = ["append_after_compactify", "kill_then_compactify", "invariant_evaluations", "shadow_comparisons", "particle_variable_follow_pid"]
+MANDATORY = ["append_after_compactify", "kill_then_compactify", "invariant_evaluations", "shadow_comparisons", "particle_variable_follow_pid", "e2e_split_files_checked", "e2e_particle_values_compared"]
 ASSUMPTIONS = ["single-threaded use of State (ladim has no threads)"]
 EXHAUSTIVE = {"quick": True, "thorough": True}
 TIMEOUT = {"quick": 600, "thorough": 3000}
@@ -76,6 +76,9 @@ def gen_cases(tier: str, seed: int) -> list[dict[str, Any]]:
     nr = 64 if tier == "quick" else 1600
     for i in range(nr):
         cases.append(dict(kind="random", seed=seed, idx=i, n=40, minlen=50, maxlen=300))
+    # end to end: split output files, particle variables must be addressable by pid in every file, records keep pid order
+    for i in range(12 if tier == "quick" else 600):
+        cases.append(dict(kind="e2e", seed=seed, idx=i))
     return cases
 
 
@@ -209,7 +212,26 @@ def _run_seq(st, seq: list[str], rng, cnt: dict, sit: dict) -> dict | None:
     return None
 
 
+def run_e2e(case: dict[str, Any], wd: Path) -> dict[str, Any]:
+    from vmon import outscn  # noqa: PLC0415
+
+    rng = C.rng_for(case["seed"], 55, case["idx"])
+    ns = int(rng.integers(6, 14))
+    rel_steps = sorted({0} | {int(s) for s in rng.integers(0, ns - 1, size=3)})
+    p = dict(idx=case["idx"], salt=case["idx"] + 500, dt=600, nsteps=ns, period=1, numrec=int(rng.choice([2, 3])), layout="sparse" if case["idx"] % 3 else "dense",
+             reversed=False, reference=None, releases=[[s, int(rng.integers(1, 4))] for s in rel_steps],
+             kills={int(rng.integers(1, ns - 1)): [0, 1], int(rng.integers(2, ns)): [2]}, pvars=True, lonlat=False, enc="f8", speed=0.08, continuous=0)
+    out = outscn.run_and_check(p, wd)
+    V = list(out["V"])
+    if not out["res"].ok:
+        V.append(C.viol(f"end-to-end run did not complete: {out['res'].exc}", params=p))
+    sit = dict(e2e_split_files_checked=len(out["files"]), e2e_particle_values_compared=out["cnt"].get("particle_values_compared", 0))
+    return C.result(V[:3], sit, out["cnt"], nontrivial=len(out["files"]) > 1, key=f"e2e|{case['idx']}", sample=dict(params=p, files=[f.path.name for f in out["files"]]))
+
+
 def run_case(case: dict[str, Any], wd: Path) -> dict[str, Any]:
+    if case["kind"] == "e2e":
+        return run_e2e(case, wd)
     st = _install()
     V: list = []
     sit: dict[str, int] = {}
